@@ -343,7 +343,11 @@ func Main() {
 			}
 			out.Anomalies++
 			if attempt >= 3 {
-				out.Inconclusive = append(out.Inconclusive, fmt.Sprintf("case %s: time anomaly on %d attempts, observations discarded", c, attempt))
+				anomalyMu.Lock()
+				why := fmt.Sprint(anomalyWhy)
+				anomalyWhy = nil
+				anomalyMu.Unlock()
+				out.Inconclusive = append(out.Inconclusive, fmt.Sprintf("case %s: time anomaly on %d attempts, observations discarded (%s)", c, attempt, why))
 				break
 			}
 		}
@@ -366,7 +370,19 @@ var anomalyCount atomic.Int64
 
 // FlagAnomaly marks the running case as disturbed by a spurious virtual-time
 // jump; the framework re-executes it.
-func FlagAnomaly() { anomalyCount.Add(1) }
+func FlagAnomaly(why ...string) {
+	anomalyCount.Add(1)
+	anomalyMu.Lock()
+	if len(why) > 0 && len(anomalyWhy) < 8 {
+		anomalyWhy = append(anomalyWhy, why[0])
+	}
+	anomalyMu.Unlock()
+}
+
+var (
+	anomalyMu  sync.Mutex
+	anomalyWhy []string
+)
 
 func (o *Out) merge(c *Out) {
 	o.Evaluations += c.Evaluations
